@@ -87,7 +87,7 @@ NOT_APPLICABLE = {
     "C07": "generic-radix float writer generates digits with native floating-point multiply/divide in data-dependent loops of up to ~1100 iterations; bit-precise symbolic FP inside such loops is beyond CBMC and the MIR->SMT encoder has no trustworthy float path (DESIGN.md, C07)",
 }
 # properties whose quick check has not yet passed end-to-end on the unchanged tree are listed here and excluded from CHECKS
-PENDING = {k: 'check built; its quick tier had not yet completed a clean end-to-end run on the unchanged tree when this manifest was generated' for k in ['C01','C02','C04','C08','C09','C13','C14','C16']}
+PENDING = {}
 for k, why in PENDING.items():
     CHECKS.pop(k, None)
     NOT_APPLICABLE[k] = why
